@@ -75,10 +75,13 @@ def lenExtra : Array Nat := #[0,0,0,0,0,0,0,0,1,1,1,1,2,2,2,2,3,3,3,3,4,4,4,4,5,
 def distBase : Array Nat := #[1,2,3,4,5,7,9,13,17,25,33,49,65,97,129,193,257,385,513,769,1025,1537,2049,3073,4097,6145,8193,12289,16385,24577]
 def distExtra : Array Nat := #[0,0,0,0,1,1,2,2,3,3,4,4,5,5,6,6,7,7,8,8,9,9,10,10,11,11,12,12,13,13]
 
-/-- copy `len` bytes from `dist` back, byte by byte (overlap allowed) -/
+/-- copy `len` bytes from `dist` back, byte by byte (overlap allowed).  A distance that reaches before the
+    start of the output reads zeros: miniz_oxide, decoding into its wrapping 32 KiB window as flate2 drives it,
+    does not reject such a match (`DistanceOutOfBounds` is raised only for a non-wrapping output buffer or a
+    distance beyond the window) but copies from the still-zeroed part of the window -/
 def copyBack : Nat → Nat → Array UInt8 → Array UInt8
   | 0, _, out => out
-  | n + 1, dist, out => copyBack n dist (out.push (out.getD (out.size - dist) 0))
+  | n + 1, dist, out => copyBack n dist (out.push (if dist ≤ out.size then out.getD (out.size - dist) 0 else 0))
 
 /-- one literal/length symbol loop of a Huffman-coded block -/
 def inflateCodes (lit dist : Huff) : Nat → Array UInt8 → R (Array UInt8)
@@ -95,8 +98,7 @@ def inflateCodes (lit dist : Huff) : Nat → Array UInt8 → R (Array UInt8)
           if ds > 29 then R.fail .bad else
           R.bind (readBits (distExtra.getD ds 0)) fun db =>
           let d := distBase.getD ds 0 + db
-          if d > out.size then R.fail .bad
-          else inflateCodes lit dist fuel (copyBack len d out)
+          inflateCodes lit dist fuel (copyBack len d out)
 
 theorem Local.inflateCodes (lit dist : Huff) (fuel : Nat) (out : Array UInt8) :
     Local (inflateCodes lit dist fuel out) := by
@@ -118,9 +120,7 @@ theorem Local.inflateCodes (lit dist : Huff) (fuel : Nat) (out : Array UInt8) :
           · exact Local.fail _
           · apply Local.bind (Local.readBits _); intro db
             simp only
-            split
-            · exact Local.fail _
-            · exact ih _
+            exact ih _
 
 def fixedLit : Huff := mkHuff ((List.replicate 144 8) ++ (List.replicate 112 9) ++ (List.replicate 24 7) ++ (List.replicate 8 8))
 def fixedDist : Huff := mkHuff (List.replicate 30 5)
@@ -191,14 +191,27 @@ theorem Local.storedBlock (out : Array UInt8) : Local (storedBlock out) := by
   · exact Local.fail _
   · exact Local.bind (Local.readBytes _) fun _ => Local.pure _
 
+/-- miniz_oxide `init_tree`: no code length may be over-subscribed, and an incomplete code is accepted only
+    for a literal/length or distance table whose longest code has length at most 1 (the code-length code must
+    always be complete) -/
+def validTable (isCodeLength : Bool) (lens : List Nat) : Bool :=
+  let cnt (l : Nat) : Nat := (lens.filter (· == l)).length
+  let step (acc : Option Nat) (l : Nat) : Option Nat :=
+    acc.bind fun left => if 2 * left < cnt l then none else some (2 * left - cnt l)
+  match (List.range' 1 15).foldl step (some 1) with
+  | none => false
+  | some left => left == 0 || (!isCodeLength && (List.range' 2 14).all fun l => cnt l == 0)
+
 def dynamicBlock (fuel : Nat) (out : Array UInt8) : R (Array UInt8) :=
   R.bind (readBits 5) fun hlit =>
   R.bind (readBits 5) fun hdist =>
   R.bind (readBits 4) fun hclen =>
   R.bind (readClLens (hclen + 4)) fun clv =>
+  if !validTable true (placeCl clv) then R.fail .bad else
   let cl := mkHuff (placeCl clv)
   R.bind (readLens cl (hlit + 257 + hdist + 1) (hlit + hdist + 400) []) fun lens =>
   if hlit + 257 > 286 ∨ hdist + 1 > 30 then R.fail .bad else
+  if !validTable false (lens.take (hlit + 257)) || !validTable false (lens.drop (hlit + 257)) then R.fail .bad else
   inflateCodes (mkHuff (lens.take (hlit + 257))) (mkHuff (lens.drop (hlit + 257))) fuel out
 
 theorem Local.dynamicBlock (fuel : Nat) (out : Array UInt8) : Local (dynamicBlock fuel out) := by
@@ -207,11 +220,15 @@ theorem Local.dynamicBlock (fuel : Nat) (out : Array UInt8) : Local (dynamicBloc
   apply Local.bind (Local.readBits 5); intro hdist
   apply Local.bind (Local.readBits 4); intro hclen
   apply Local.bind (Local.readClLens _); intro clv
-  simp only
-  apply Local.bind (Local.readLens _ _ _ _); intro lens
   split
   · exact Local.fail _
-  · exact Local.inflateCodes _ _ _ _
+  · simp only
+    apply Local.bind (Local.readLens _ _ _ _); intro lens
+    split
+    · exact Local.fail _
+    · split
+      · exact Local.fail _
+      · exact Local.inflateCodes _ _ _ _
 
 /-- the block loop; `fuel` bounds both the number of blocks and the symbols per block -/
 def inflateBlocks (symFuel : Nat) : Nat → Array UInt8 → R (Array UInt8)
